@@ -229,6 +229,18 @@ def written_stream(ctx: Ctx, drv=None, n=None):
       (iv)  the hypotheses on the parameters: str.lower leaves the names alone, html.unescape inverts `escAttr` on the values."""
     drv = drv or Driver()
     lines, meta = [], []
+    # `ParamsOK` (the theorem's hypotheses on its two parameters) against the real functions, beyond the values that occur below:
+    # html.unescape inverts escAttr on strings built from everything that looks like a reference; str.lower leaves names of the
+    # writer's class [a-z][-.:_a-z0-9]* alone
+    atoms = ["&", "amp", ";", "&amp;", "&#38;", "&lt", "\"", "&quot;", "#", "x", "&#x26;", "&notin;", "&am", "p;", "quot", " ", "é", "&#", "&#x", "1", "<", ">", "'"]
+    for i in range(ctx.n(3000, 30000)):
+        r = ctx.rng("paramsok", i)
+        v = "".join(r.choice(atoms) for _ in range(r.randint(1, 6)))
+        nm = r.choice("abcxyz") + "".join(r.choice("abz019-.:_") for _ in range(r.randint(0, 5)))
+        if html.unescape(c04.esc_attr_plain(v)) != v or nm.lower() != nm:
+            ctx.violation("ParamsOK fails for the real html.unescape / str.lower", case={"value": v, "name": nm}, stream="written-text",
+                          no_failing_input=True)
+    ctx.count("written-text:ParamsOK-samples", ctx.n(3000, 30000))
     for i in range(n if n is not None else ctx.n(1500, 20000)):
         r = ctx.rng("written-text", i)
         x = ctx.rng("written-text-extra", i)
